@@ -8,7 +8,8 @@ claim("C06", category="model_checking", engine="arraymc",
            "kill-after-sync, forced autosave, files changed/removed during sync, scrub, fix variants, rehash, touch) from a synced array, in 3 / 6 "
            "configurations (1,2,3z,3,6 levels; split parity; hash kinds/sizes; several content copies), is decoded with an independent content "
            "codec and every all-synced stripe is recomputed with an independent GF(2^8) generator and compared with the parity bytes addressed "
-           "through the recorded split sizes; map sanity is checked on the same state. Exhaustive within the depth bound; all traces are real executions.",
+           "through the recorded split sizes; map sanity is checked on the same state. Exhaustive within the depth bound; all traces are real executions. "
+           "Later additions: operations 'silent' (in-place corruption keeping size and stamp), syncs with an injected read error, sync -E; initial states with silent errors pending; transition oracles after every command (hash kept for DELETED positions, books untouched by rehash/touch); a part where the parity disk runs full in the middle of a history.",
       note="trusted: libvp interposition (frozen clock/urandom/statfs), the lab's version store as ground truth for file bytes, vpref.c as field/generator reference; arrays have <=4 disks and 1-2 KiB blocks",
       design="3 C06")
 
@@ -20,7 +21,8 @@ claim("C01", category="model_checking", engine="arraymc",
            "data disks and a removed-disk position hole. Phase 2 applies, to every distinct state that follows a complete successful sync, every subset "
            "of <=N devices as lost / corrupted with unchanged timestamps / mixed, every rotating per-stripe pattern of N damaged blocks and every single "
            "file, link or directory deletion/truncation; after fix the data trees must equal the sync-time snapshot (bytes, mtime, link targets, "
-           "hard-link identity, empty dirs), fix and a following check must report no error, and the C06 parity oracle must hold.",
+           "hard-link identity, empty dirs), fix and a following check must report no error, and the C06 parity oracle must hold. "
+           "Later additions: twin files (same size and second, other nanoseconds) with the single-disk damage 'one recorded file moved over another'; rotating damage with truncated file tails; one configuration with persistent inodes (fake UUID); thorough: one configuration run with the start-up self test enabled.",
       note="trusted: lab ground truth and libvp; <=4 data disks, 1-2 KiB blocks; corruption shapes only with hash size>=8; the decoder algebra for up to 251 disks is C02/C03's subject",
       design="3 C01")
 
@@ -31,7 +33,8 @@ claim("C04", category="fault_enumeration", engine="arraymc",
            "every level with 2 shapes, size and time-stamp preserved; thorough adds every pair in different stripes. Each case is given to check -a, "
            "check, scrub -p full / new / 100 (clock advanced) / 50 -o 0 / bad (after a marking scrub) and the set of error:/parity_error: tags must "
            "equal the damaged (stripe, disk|level) set the command covers, the exit status must fail, and status -G must list exactly those stripes "
-           "as bad after a scrub; the undamaged array must stay silent under every command.",
+           "as bad after a scrub; the undamaged array must stay silent under every command. "
+           'Later additions: a partly synced configuration (pending blocks on a lower disk next to synced blocks of a higher disk); full check and full scrub repeated with every pread answering short; the shared transition oracles (parity, books) after every command of the preparation.',
       note="same-stripe data+parity damage is not combined (scrub by design skips the parity compare once a data block failed); hash sizes 8/16 only",
       design="3 C04")
 
@@ -43,7 +46,8 @@ claim("C05", category="model_checking", engine="arraymc",
            "per-file remove / truncate / flip of a hashed block, parity stale or garbage, each under 6 filter combinations of -f/-d/-m/-e. After fix "
            "every recorded file must either carry the bytes of its recorded version (version store narrowed by the recorded hashes of synced "
            "blocks) or be reported unrecoverable with failing exit and summary; nothing unselected or unknown to the content file may be written, and "
-           "content files stay untouched.",
+           "content files stay untouched. "
+           'Later additions: initial states from interrupted histories (copy partly synced and removed, replaced file not yet in parity, killed sync then rewrite, DELETED records surviving a killed sync, pending file beyond the end of the other disks); a part that loses a hash-less new file together with every subset of parity levels on 3 (thorough 4, z) levels; quick rotates the filters over the outer states.',
       note="damage restricted to the statement's detectable class; a never-synced file the user changed again after it was recorded is outside that class and not judged",
       design="3 C05")
 
@@ -55,7 +59,8 @@ claim("C11", category="model_checking", engine="arraymc",
            "thorough; additionally all sequences of length <=1 (quick) / <=2 (thorough) in fake-UUID persistent-inode mode, inode / dir / physical "
            "scan order and with parallel scanning. Before sync diff must exit 2 exactly when the recorded files/links differ from the tree; after a "
            "sync that exits 0: diff 0 with zero counters, list -l and the decoded content equal the tree walk (files, links, empty dirs), every "
-           "block is synced with the independent hash of the current bytes, check passes and the C06 oracle holds.",
+           "block is synced with the independent hash of the current bytes, check passes and the C06 oracle holds. "
+           "Later additions: one operation followed by each kind of incomplete sync; a mode in which the disks' UUID appears between the base sync and the judged one (recorded inodes void) with twins exchanging inode numbers; a file put back with an unchanged stamp and its hard link; inode-aware diff expectation with persistent inodes.",
       note="inode reuse cannot be forced on tmpfs; in order-sensitive modes the base state is rebuilt per sequence instead of restored",
       design="3 C11")
 
@@ -68,7 +73,8 @@ claim("C07", category="fault_enumeration", engine="crashmc",
            "status/list/diff/check -a load a content file, satisfy the C06 oracle, keep every previously synced file recoverable from each single lost "
            "device (adds only; <=N devices after SIGINT), and a re-run sync must complete and restore full recoverability (each single device + one "
            "pair). fix after a lost disk is killed at every one of its calls and re-run: the final tree must equal the uninterrupted result (mtime "
-           "of the file cut short excepted).",
+           "of the file cut short excepted). "
+           'Later additions: graceful stop also for TERM (thorough HUP, QUIT) and between the level writes of a stripe; scenarios with split parity that does not grow, with and without -E; a part that holds one parity writer thread before each of its writes (threaded I/O, forced autosave) and kills the process as soon as a content save completes meanwhile.',
       note="crash model: process death with completed syscalls durable (no reordering of unsynced writes); one recorded finding: torn parity write with a single level",
       design="3 C07")
 
@@ -78,7 +84,8 @@ claim("C08", category="fault_enumeration", engine="crashmc",
            "fault-free traced run lists every read/write call per file; each is failed once (pairs on different files/stripes in thorough). The run "
            "must exit failing with a diagnostic, the stripe hit must not be recorded synced-and-healthy, the C06 oracle must hold, all other stripes "
            "must end as in the fault-free run (EIO), and the next sync or fix -e + scrub -p bad must clear everything. Read-side errors are checked "
-           "strictly; the three parity-write defects are recorded findings keyed by call site.",
+           "strictly; the three parity-write defects are recorded findings keyed by call site. "
+           'Later additions: short reads as an environment answer (alone: must be transparent; followed by EIO on the continuation); scrub scenarios with a standing file error (file removed / shortened since the sync) in the stripe of the injected error, judged against the fault-free run of the same scenario.',
       note="threaded depths run free; per-file call numbering is schedule independent (one worker per file); the tail-not-collected finding is the only schedule dependent outcome",
       design="3 C08")
 
@@ -90,7 +97,8 @@ claim("C09", category="fault_enumeration", engine="bytemc + crashmc",
            "list (thorough also diff, check -a, sync): the command must exit failing or stop through its own os_abort, with no sanitizer report, no "
            "other signal, no hang (60 s, re-run with 600 s) and no file changed. Part 2: sync, touch and scrub with 1,3 (thorough 1,2,3,5,7) content "
            "copies are killed before/after/in the middle of every state-changing call; every configured copy must be byte-identical to the old "
-           "version or decode (CRC included) to one of the complete new versions, and all copies are identical after success.",
+           "version or decode (CRC included) to one of the complete new versions, and all copies are identical after success. "
+           "Later additions: structure-aware mutations (every packed number replaced by 2^31-1, 2^31, 2^32-1 / 2^32, 2^63, 2^64-1); after every kill point the user's next sync must leave all copies identical (format-3 scenarios included); part 3 lets one or two freshly flushed copies rot silently before the re-read.",
       note="new-version identity is the decoded model without inode numbers (inode numbers of data files differ between two materialisations of one state)",
       design="3 C09")
 
@@ -102,7 +110,8 @@ claim("C12", category="model_checking", engine="arraymc (monitor)",
            "configurations. Both the before/after snapshot of the whole lab and the trace of state-changing system calls must respect the matrix: "
            "read-only commands nothing; scrub/rehash content only; sync content+parity and never below a data disk; fix never content, only data "
            "paths it tags fixed/recovered/unrecoverable (and their hard links / parent dirs) and only parity blocks it tags parity_fixed; pool only "
-           "the pool dir; touch only the sub-second mtime of files whose recorded nsec is zero plus content. Allowed always: log, lock file.",
+           "the pool dir; touch only the sub-second mtime of files whose recorded nsec is zero plus content. Allowed always: log, lock file. "
+           'Later additions: conditions bad-then-missing, kinds swapped (empty file to link, link to file, directory to file, file to directory), a recorded zero-nanosecond file rewritten since; menu entries for -b and range-limited fix.',
       note="the monitor (vp/perm.py) is also usable on every run of the other checks; 'zero time-stamps' = recorded sub-second part zero",
       design="3 C12")
 
@@ -113,7 +122,8 @@ claim("C14", category="fault_enumeration", engine="arraymc + crashmc",
            "and combined with ordinary pending changes. sync must exit failing, leave every content and parity file byte-identical and issue no "
            "write/rename/truncate on them (trace); with the override or the setting restored the same sync must succeed and C11's post-sync oracle "
            "hold. Lock: sync, scrub, fix and touch are paused (LD_PRELOAD) at EVERY state-changing call k>=1 while a second sync is attempted: it "
-           "must be refused with 'already in use' and write nothing; after release the first command completes and sync proceeds.",
+           "must be refused with 'already in use' and write nothing; after release the first command completes and sync proceeds. "
+           'Later additions: per-disk triggers combined with files arriving on the emptied disk; zero-size trigger below a sub-directory; a configuration whose second disk is still unrecorded; configuration mismatches also tried with the force options of other interlocks; more first commands for the lock.',
       note="SIGABRT from the tool's own os_abort counts as a failing refusal (v2 content + reduced hashsize in the configuration ends that way)",
       design="3 C14")
 
@@ -126,7 +136,8 @@ claim("C15", category="model_checking", engine="arraymc",
            "limit and skip no eligible stripe strictly older than a verified one. Afterwards verified-correct stripes have time=now and cleared "
            "marks, unverified stripes are unchanged; one damage (data, parity, file changed since sync) at every stripe: silent errors are marked bad "
            "without refreshing the time, changed files are never marked bad; exit status fails iff verified damage; scrub -> fix -e -> scrub -p bad at "
-           "every stripe clears the mark; 20 default scrubs 11 days apart cover every stripe; the C12 monitor holds on every run.",
+           "every stripe clears the mark; 20 default scrubs 11 days apart cover every stripe; the C12 monitor holds on every run. "
+           'Later additions: a real silent error in a stripe shared with a file changed since the sync must still be marked; books (time, never-scrubbed mark) of everything not verified correct must not move, also for wholly pending stripes.',
       note="tie rule among equally old stripes is free; the clock is frozen per command through libvp",
       design="3 C15")
 
@@ -138,7 +149,8 @@ claim("C17", category="model_checking", engine="arraymc",
            "parity in 512-byte steps (aligned and unaligned limits, limits hit mid-growth). After every command the concatenation of the splits cut "
            "at their recorded sizes must equal the twin's parity byte for byte, recorded sizes must be block multiples not larger than the files, "
            "only the last used split may change size while growing, the C06 oracle (positions read back through the recorded sizes) must hold, and "
-           "a limit too small for the data must give a clean refusal that leaves C06 intact.",
+           "a limit too small for the data must give a clean refusal that leaves C06 intact. "
+           "Later additions: asymmetric configurations (only one level split, limits computed from the tool's limit formula), every non-empty split of every level lost in turn alone and with a data disk, total length compared with the twin, split file lengths unchanged by a rebuild, per-file limit growing between syncs.",
       note="limits come from the tool's own test seam; <=2 data disks",
       design="3 C17")
 
@@ -151,7 +163,8 @@ claim("C19", category="model_checking", engine="arraymc",
            "must produce an error, with -h the parity files must be byte-identical, with -N no copy may be detected, a partially hashed source must "
            "not donate hashes. Then the original is lost (alone, and with all parity) and fix / fix -i <dir holding decoys and a true copy> run "
            "with the decoy still in the array: every recorded file ends with bytes matching its recorded hashes or is reported unrecoverable (C05's "
-           "oracle), never decoy bytes under the original's identity.",
+           "oracle), never decoy bytes under the original's identity. "
+           'Later additions: the matrix repeated with reduced hash size, with a silent error in every stripe of the look-alike, with the original removed (look-alike posing as a move) and with the stopped sync -h repeated; stale import for hash-less blocks; inode look-alikes after a UUID change.',
       note="inode-keeping moves are trusted by design; hash size 16",
       design="3 C19")
 
@@ -165,7 +178,8 @@ claim("C20", category="model_checking", engine="arraymc",
            "the content-equality classes of non-empty fully synced files and the pair count is sum(n-1) (soundness only during a migration); "
            "status -G: per-stripe used / unsynced / bad / rehash / time lines and the has_unsynced / has_unscrubbed / has_rehash / has_bad counters "
            "equal the decode; pool: exactly one link per recorded file and link with the right target, stale links and empty directories removed, "
-           "foreign files kept.",
+           "foreign files kept. "
+           'Later additions: recorded state unsynced-head (range-limited sync), hidden names in tree and re-pool, re-pool after a cross-disk move and a share change.',
       note="unambiguity judged on the tagged log; human readable stdout not judged",
       design="3 C20")
 
@@ -178,7 +192,8 @@ claim("C10", category="model_checking", engine="arraymc + bytemc",
            "with the independent encoder - every 64-bit scalar (size-compatible mtime, inode) and 32-bit scalar (total/free blocks of maps and "
            "parities) at each varint length boundary up to 2^64-1 / 2^32-1, nanoseconds invalid/0/1/999999999/2^30, info times at delta boundaries "
            "with alternating flags, sparse maps with single-block runs at positions 127..2^21, a 16389-block run and 300 deleted blocks - must be "
-           "loaded, rewritten to exactly the encoder's bytes, and shown with the same values by list.",
+           "loaded, rewritten to exactly the encoder's bytes, and shown with the same values by list. "
+           "Later additions: configurations 'emptied' and 'phantom' (disks whose last remains are DELETED positions); C06's parity oracle and the transition oracles evaluated in every step; one configuration with persistent inodes.",
       note="info times are multiples of 8 s and never in the future in reachable states; states are re-based between same-length lab roots because v3 content records absolute split paths",
       design="3 C10")
 
@@ -213,7 +228,8 @@ claim("C18", category="exploration", engine="bytemc (filter harness) + arraymc",
            "right kind, rooted patterns against the path from the disk root with * ? [] never crossing '/', directory patterns taking everything "
            "below, escapes. Part 2: every single rule and 6 ordered pairs end to end through sync and the decoded content, with and without nohidden, "
            "with content copies, a stale tmp and lock files on a data disk (never recorded). Part 3: all 64 combinations of -f (3 patterns) / -d / -m / "
-           "-e in check -v: the processed file set equals the prediction and nothing is written.",
+           "-e in check -v: the processed file set equals the prediction and nothing is written. "
+           'Later additions: the selection part plants a wrong parity block (parity must stay untouched under -f/-m/-d DATADISK), missing links and empty directories, a bad-marked file rewritten by the user (outside -e).',
       note="cases where 'first match decides' and 'a directory pattern takes everything below' disagree are counted and not judged (manual ambiguous); fix's side of selection is C05's filter menu",
       design="3 C18")
 
@@ -225,7 +241,8 @@ claim("C16", category="exploration", engine="bytemc (vector harness) + arraymc",
            "levels) is rebuilt by fix to the golden bytes and check passes, and the independent parity/content oracle accepts the reference's files. "
            "9421 vectors (both hashes for every length 0..1100 x 4 seeds, CRC-32C generic and dispatched for lengths 0..300 and a seeded long run, 6 "
            "Cauchy + 3 power parity blocks of an 8-disk stripe) are reproduced bit for bit by the current build through a linked harness; the same "
-           "vectors are recomputed by native/vpref.c so the golden files are anchored to the published algorithms.",
+           "vectors are recomputed by native/vpref.c so the golden files are anchored to the published algorithms. "
+           'Later additions: 12 reference arrays caught in the middle of a hash migration (both directions); the arrays are read with the start-up self test enabled.',
       note="golden files generated once from a scratch worktree of commit e695936 (see golden/README); both tiers run everything",
       design="3 C16")
 
@@ -240,6 +257,7 @@ claim("C13", category="model_checking", engine="schedmc",
            "under the same scheduler as LD_PRELOAD (scan, reader, writer, verify threads): every schedule with <=1 deviation from the default (<=2 on a "
            "tiny scenario in thorough) must give the single-threaded outcome (exit, tags, parity bytes, content, trees). Part 3: every "
            "--test-io-cache depth (8 values quick, all 3..128 thorough) x multi-scan on/off on 7 scenarios incl. two silent errors in one stripe. "
-           "Part 4: ThreadSanitizer build, free running.",
+           "Part 4: ThreadSanitizer build, free running. "
+           'Later additions: scenarios with a pending hash migration and with two silent errors in one stripe in every part.',
       note="sequential consistency only; unsynchronised accesses are visible only to the TSan pass; two recorded findings (writer error lost, scan copy-source race)",
       design="3 C13, 11.2")
